@@ -51,7 +51,7 @@ INVARIANTS: list[tuple[str, str, str, str]] = [
     ("MLIRTokenKind.get_float_value", "raise", r"raise ValueError\('Token is not a float literal", "kind precondition: callers only pass FLOAT_LIT tokens"),
     ("MLIRTokenKind.get_string_literal_value", "raise", r"raise ValueError\('Token is not a string literal", "kind precondition"),
     ("MLIRLexer._lex_prefixed_ident", "assert", r"assert self\.pos != 0", "called from lex() after one character was consumed"),
-    ("MLIRLexer._lex_prefixed_ident", "assert", r"assert first_char == '%'", "lex() dispatches here only for '#', '!', '^', '%'"),
+    ("MLIRLexer._lex_prefixed_ident", "assert", r"assert \w+ == '%'", "lex() dispatches here only for '#', '!', '^', '%'"),
     ("Lexer.lex", "raise", r"raise NotImplementedError\(\)", "abstract method, overridden by MLIRLexer"),
     ("AttrParser._TensorLiteralElement.to_complex", "int()", r"int\(self\.value\[[01]\]\)", "components of a parsed complex literal are bool/int/float"),
     ("StringLiteral.bytes_contents", "int()", r"int\(hex_contents, 16\)", "guarded by all(c in hexdigits ...) on the same two characters"),
@@ -309,7 +309,7 @@ def _surviving_members(members: list[str], facts, argt: str) -> list[str]:
 
 
 def check_name_hint_guards(idx: Index, rep: Report) -> None:
-    r = rep.rule("C07.R3a", "every place that turns parsed text into a name hint carries the is_valid_name guard (the setter raises ValueError)", floor=4)
+    r = rep.rule("C07.R3a", "every place that turns parsed text into a name hint carries the is_valid_name guard (the setter raises ValueError)", floor=3)
     n = 0
     for m in PARSER_MODULES:
         mi = idx.module(m)
